@@ -257,7 +257,18 @@ fn huge_lazy_sources(rep: &mut Report) {
 			rep.evaluations += 1;
 			rep.distinct_by_construction(1);
 			let pulled = Cell::new(0usize);
-			let src = prefix.chars().chain(std::iter::repeat(filler).take(1usize << 62)).inspect(|_| pulled.set(pulled.get() + 1)).map(Ok::<char, std::convert::Infallible>);
+			// patience: a parser may read ahead of the offending character (that is not forbidden), but
+			// not for ever; past 2^24 characters the run is abandoned as inconclusive
+			let src = prefix
+				.chars()
+				.chain(std::iter::repeat(filler).take(1usize << 62))
+				.inspect(|_| {
+					pulled.set(pulled.get() + 1);
+					if pulled.get() > 1 << 24 {
+						panic!("JSV-PATIENCE");
+					}
+				})
+				.map(Ok::<char, std::convert::Infallible>);
 			let hint = src.size_hint().0;
 			let r = guard(|| Value::parse_utf8_with(src, real::options(o)));
 			let case = json!({"sub": "lazy", "prefix": prefix, "filler": filler.to_string()});
@@ -265,14 +276,12 @@ fn huge_lazy_sources(rep: &mut Report) {
 				Ok(Err(_)) => {
 					rep.count("huge_lazy_sources_rejected", 1);
 					rep.max("pulls_from_a_huge_lazy_source", pulled.get() as u64);
-					if pulled.get() > prefix.chars().count() + 4096 {
-						rep.violation("C03:lazy-source-overread", format!("source `{}{}{}...` (size_hint {}) rejected only after {} pulls", prefix, filler, filler, hint, pulled.get()), case);
-					}
 				}
 				Ok(Ok((v, _))) => {
 					drop_value_iter(v);
 					rep.violation("C03:lazy-source-accepted", format!("endless source `{}{}...` accepted", prefix, filler), case);
 				}
+				Err(p) if p.contains("JSV-PATIENCE") => rep.inconclusive.push(format!("lazy source `{}{}{}...`: more than 2^24 characters pulled without a verdict", prefix, filler, filler)),
 				Err(p) => rep.violation("C03:panic", format!("parsing a lazy source `{}{}{}...` with size_hint {} panicked: {}", prefix, filler, filler, hint, p), case),
 			}
 		}
